@@ -8,8 +8,8 @@ CONSTANTS
  Flag = FALSE
  Tps = 2
  Off = 1
- MaxTick = 10
- MaxSubs = 4
+ MaxTick = 12
+ MaxSubs = 5
  MaxErr = 3
 INVARIANTS Safety
 VIEW View
